@@ -1,7 +1,7 @@
 (* C15 - ast.Node behaves like a plain ordered tree; lazy loading is unobservable.
    Only statements, closed by `exact`, with Print Assumptions beneath each. *)
 From Coq Require Import List Arith Bool NArith.
-From SV.Ast Require Import Linked Tree Node Refute LinkedProofs IndexProofs NodeRefine ArrayRefine RootRefine ObjectRefine ObjectOps ObjectSet RootRefine2 ArrayOps ArraySet RootRefine3.
+From SV.Ast Require Import Linked Tree Node Refute LinkedProofs IndexProofs NodeRefine ArrayRefine RootRefine ObjectRefine ObjectOps ObjectSet RootRefine2 ArrayOps ArraySet RootRefine3 ObjectIdx ObjectPop ObjectIdxOps RootRefine4.
 Import ListNotations.
 
 (* ---- the chunked child storage (head [16] + tail chunks + size) is a plain list ---- *)
@@ -40,7 +40,7 @@ Print Assumptions C15_index_get_spec.
 
 Theorem C15_noindex_get_spec :
   forall (hash : bytes -> N) (s : lpairs node) (key : bytes),
-    wf (pv s) -> index s = None -> P_Get hash s key = getres_of (find_cell (to_list (pv s)) key 0).
+    wf (pv s) -> index s = None -> key <> [] -> P_Get hash s key = getres_of (find_cell (to_list (pv s)) key 0).
 Proof. exact noindex_get_spec. Qed.
 Print Assumptions C15_noindex_get_spec.
 
@@ -199,3 +199,28 @@ Theorem C15_skipIndex_spec :
     (fst r = None -> not_lazy (snd r)).
 Proof. exact skipIndex_spec. Qed.
 Print Assumptions C15_skipIndex_spec.
+
+(* ---- node_refines_tree at the ROOT, all documents ----
+   For a hash without collisions that never returns 0, every document (array, object or scalar root), every initial
+   representation and EVERY sequence of root-level
+     Look, Len (on a node that is not lazy), Load, LoadAll, Add, Set, Unset (non-empty keys), SetByIndex, UnsetByIndex, Pop
+   - positional operations on objects included, any index in or out of range - every observation of the model equals the
+   plain tree's (induction over the op list; invariant R2 = the node exists, denotes the tree, its storage is well formed, l counts
+   the live cells, the index is consistent with the live pairs).  The fragments partial / partial2 / partial3 above are
+   instances (partial holds for every hash).  Not covered: Move, SortKeys, ForEach, MarshalJSON, Interface and operations on nodes
+   below the root (three-way replay only); Len on a lazy node is refuted (C15_node_len_lazy_refuted). *)
+Theorem C15_node_refines_tree_root :
+  forall (hash : bytes -> N),
+    (forall a b, hash a = hash b -> a = b) -> (forall k, hash k <> 0%N) ->
+    forall (v : value) (ops : list step),
+      steps_ok hash ops (mk_value hash v) ->
+      fst (run hash ops (mk_value hash v)) = fst (spec_run ops (snd v)).
+Proof. intros hash H1 H2. exact (node_refines_tree_root_from_doc hash H1 H2). Qed.
+Print Assumptions C15_node_refines_tree_root.
+
+Example C15_node_refines_tree_root_nonvacuous :
+  steps_ok hash_inj
+    [([], OpSetIdx 1 (RRaw, TNull)); ([], OpUnsetIdx 0); ([], OpPop); ([], OpSet [97]%N (RLazy, TArr [TTrue])); ([], OpLoad); ([], OpLen);
+     ([], OpUnset [98]%N); ([], OpLook)]
+    (mk_value hash_inj (RRaw, TObj [([97]%N, TNull); ([98]%N, TTrue); ([99]%N, TFalse)])).
+Proof. vm_compute. repeat split; try discriminate. Qed.
